@@ -597,6 +597,71 @@ def gen_special(ctx):
     return out
 
 
+def gen_argcheck(ctx, drv):
+    """Random, possibly invalid add calls (dimensions, port maps, rectangular S for T16/U16).  The model
+    is asked first; calls for which it predicts undefined behaviour of the C code (array overruns,
+    assert) are not sent to the library.  Only the model-vs-library tie is checked on these."""
+    import random
+    rng = ctx.rng
+    quick = ctx.tier == "quick"
+    out = []
+    sid = 300000
+    for ty in sc.TYPES:
+        for (r, c) in dims_for(ty, 3):
+            for rep in range(1 if quick else 4):
+                P = max(r, c)
+                s = Scenario(ty, r, c, 1, random.Random(rng.getrandbits(48)), sid)
+                sid += 1
+                s.merr = rep % 2 == 1 and ty in ("T16", "U16")
+                s.exact = False
+                s.argcheck = True
+                for k in range(3, 8):
+                    s.slots[k] = QI(Fraction(rng.randint(-7, 7), 10), Fraction(rng.randint(-7, 7), 10))
+                    s.slot_kind[k] = "known"
+                    s.ops.append(("par", k))
+                cand = []
+                for _ in range(14 if quick else 30):
+                    sr = rng.choice([0, 1, 1, 2, P, P, P + 1]) if rng.random() < 0.3 else rng.randint(1, P)
+                    scn = sr if rng.random() < 0.6 else rng.randint(1, P)
+                    br = rng.choice([r, r, max(sr, scn), sr, rng.randint(1, r)])
+                    bc = rng.choice([c, c, max(sr, scn), scn, rng.randint(1, c)])
+                    br, bc = max(1, min(br, r)), max(1, min(bc, c))
+                    n = max(sr, scn)
+                    if rng.random() < 0.15 and sr == P and scn == P:
+                        ports = []
+                    else:
+                        ports = rng.sample(range(1, P + 1), min(n, P)) if rng.random() < 0.8 else [rng.randint(0, P + 1) for _ in range(n)]
+                        while len(ports) < n:
+                            ports.append(rng.randint(1, P))
+                    cells = [rng.choice([0, 0, 1, 2, 3, 4, 5, 6, 7]) for _ in range(sr * scn)]
+                    head = "add mm %d %d %d %d %s %d %s" % (br, bc, sr, scn, " ".join(map(str, cells)), len(ports), " ".join(map(str, ports)))
+                    head = " ".join(head.split())
+                    vals = " ".join("%s %s" % (float.hex(rng.uniform(-1, 1)), float.hex(rng.uniform(-1, 1))) for _ in range(br * bc))
+                    cand.append((head + " " + vals, head))
+                # first pass through the model: drop the calls with undefined behaviour
+                lines = ["new %s %d %d 1" % (ty, r, c)] + ["par %d" % k for k in range(3, 8)]
+                if s.merr:
+                    lines.append("merr on")
+                lines += [m for _, m in cand] + ["end"]
+                rc, mo, me = vplib.sh([drv], input="\n".join(lines) + "\n", timeout=120)
+                mo = mo.split("\n")
+                base = len(lines) - len(cand) - 1
+                if s.merr:
+                    s.ops.append(("merr", "1e-6"))
+                kept = 0
+                for i, (cl, ml) in enumerate(cand):
+                    if rc == 0 and "OUT-OF-MODEL" not in mo[base + i]:
+                        s.ops.append(("rawadd", cl, ml))
+                        kept += 1
+                        if kept % 4 == 0:
+                            s.ops.append(("solve",))
+                s.ops.append(("solve",))
+                ctx.extra["argcheck_calls"] = ctx.extra.get("argcheck_calls", 0) + kept
+                ctx.extra["argcheck_undefined_skipped"] = ctx.extra.get("argcheck_undefined_skipped", 0) + len(cand) - kept
+                out.append(s)
+    return out
+
+
 # ---------------------------------------------------------------------------- running
 def run_harness(ctx, exe, lines, timeout=900, leak=True):
     rc, out, err = vplib.sh([exe], input="\n".join(lines) + "\n", timeout=timeout, env=ctx.run_env(leak=leak))
@@ -662,6 +727,25 @@ def probes(ctx, exe):
                     ctx.violation({"kind": "disagreement", "op": "vnacal_new_solve", "class": "merr, too few standards"},
                                   "under-determined solve with error modelling: " + ln[:200], {"script": lines, "output": out[:10]})
                     return False
+    # 3. a minimal determining set must also solve when measurement error modelling is enabled
+    #    (no degrees of freedom: nothing to test; D58)
+    for ty in sc.TYPES:
+        lines = ["new %s 1 1 1" % ty, "merr 1e-6", "add r1 1 1 2 1 -0x1.2p+0 0x0p+0", "add r1 1 1 1 1 0x1.d555555555555p-1 0x0p+0",
+                 "add r1 1 1 0 1 0x1.999999999999ap-4 0x0p+0", "solve", "end"]
+        rc, out, err = run_harness(ctx, exe, lines, timeout=60)
+        ctx.count(("probe-merr-minimal", ty))
+        sig = vplib.asan_signature(err)
+        if rc != 0 or sig is not None:
+            sig = sig or {"kind": "fault", "error": "exit %d" % rc, "function": None}
+            ctx.violation(sig, "minimal set with error modelling (%s): %s" % (ty, sig), {"script": lines, "stderr": err[-2000:]})
+            return False
+        d = [parse_kv(x) for x in out if x.startswith("S ")][0]
+        if d["rc"] != "0":
+            ctx.violation({"kind": "disagreement", "op": "vnacal_new_solve", "class": "m_error, exactly determined"},
+                          "short/open/match determine the 1x1 %s terms exactly, but with vnacal_new_set_m_error the solve "
+                          "fails (%s): the p-value of a system with no degrees of freedom is reported as 0" % (ty, d["errno"]),
+                          {"script": lines, "output": out[:8]})
+            return True      # one report; the enumeration is unaffected
     return True
 
 
@@ -762,6 +846,8 @@ def run(ctx):
                             "terms_checked", "dut_checked")}
     stats.update({"worst_cond": 0.0, "worst_term_error": 0.0, "worst_dut_error": 0.0})
     scen = gen_scenarios(ctx) + gen_special(ctx)
+    if drv is not None:
+        scen += gen_argcheck(ctx, drv)
     ctx.log("%d scenarios" % len(scen))
     all_c, all_m, index = [], [], []
     for s in scen:
@@ -857,6 +943,9 @@ def run(ctx):
     ctx.obligation("tie:coverage (required EDOM and required success both exercised)",
                    stats["edom_required"] > 50 and stats["solve_required"] > 50 and stats["dut_checked"] > 10,
                    "edom %d, success %d, dut %d" % (stats["edom_required"], stats["solve_required"], stats["dut_checked"]))
-    if have_coq and not coq_ok and nprob == 0 and clean:
-        ctx.unproved("C20:coq", "the Coq development of C20 does not build",
-                     "%d solve calls in %d histories against the library and the exact-rank oracle" % (stats["solves"], len(scen)))
+    searched = "%d solve calls in %d histories against the library, the model and the exact-rank oracle" % (stats["solves"], len(scen))
+    if not ctx.violations:
+        for name, ok, detail in list(ctx.obligations):
+            if not ok:
+                ctx.unproved(name, detail or "obligation failed", searched)
+                break
